@@ -6,6 +6,7 @@ import (
 	"context"
 	"fmt"
 	"math"
+	"sort"
 	"strings"
 	"time"
 
@@ -14,6 +15,7 @@ import (
 	"github.com/influxdata/influxdb/v2/toml"
 	"github.com/influxdata/influxdb/v2/tsdb"
 	"github.com/influxdata/influxdb/v2/tsdb/cursors"
+	"github.com/influxdata/influxdb/v2/tsdb/engine/tsm1"
 	"github.com/influxdata/influxql"
 	"verif/dsim/model"
 	"verif/dsim/tape"
@@ -29,19 +31,84 @@ const (
 
 var FieldTypes = [NFields]influxql.DataType{influxql.Float, influxql.Integer, influxql.String, influxql.Boolean, influxql.Unsigned}
 
-func MeasName(m int) string  { return fmt.Sprintf("m%d", m) }
+// Measurement names: one of them needs every escape a measurement name can need in a series key (comma, space)
+// and contains an equals sign (which a measurement name carries unescaped).
+var MeasNames = [NMeas]string{"m0", "m,1 x=y", "m2"}
+
+func MeasName(m int) string  { return MeasNames[m%NMeas] }
 func FieldName(f int) string { return fmt.Sprintf("f%d", f) }
 
-// Tag values include characters that must be escaped in series keys.
-var Hosts = []string{"a", "b"}
-var Regions = []string{"x", "y z"}
+// KV is one tag of a series.
+type KV struct{ K, V string }
+
+// TagKeys are the tag keys of the domain; TagSets the four tag sets of a measurement. The sets differ in their
+// KEYS (one has no region, one carries the extra tag rack) and the values need escaping in series keys (space,
+// comma, equals sign).
+var TagKeys = []string{"host", "rack", "region"}
+var TagSets = [NTagSets][]KV{
+	{{"host", "a"}, {"region", "x"}},
+	{{"host", "b"}, {"region", "y z"}},
+	{{"host", "a,b=c"}},
+	{{"host", "b"}, {"rack", "r=1"}, {"region", "x"}},
+}
+
+// TagDomain lists the values used in predicates and conditions on a key: every value some series carries plus
+// one that no series carries.
+func TagDomain(key string) []string {
+	switch key {
+	case "host":
+		return []string{"a", "b", "a,b=c", "no"}
+	case "region":
+		return []string{"x", "y z", "no"}
+	case "rack":
+		return []string{"r=1", "no"}
+	}
+	return nil
+}
+
+func SeriesMeas(s int) string { return MeasName((s % NSeries) / NTagSets) }
+
+func SeriesKVs(s int) []KV { return TagSets[s%NTagSets] }
 
 func SeriesTags(s int) models.Tags {
-	t := s % NTagSets
-	return models.NewTags(map[string]string{"host": Hosts[t%2], "region": Regions[t/2]})
+	m := map[string]string{}
+	for _, kv := range SeriesKVs(s) {
+		m[kv.K] = kv.V
+	}
+	return models.NewTags(m)
 }
-func SeriesHost(s int) string   { return Hosts[(s%NTagSets)%2] }
-func SeriesRegion(s int) string { return Regions[(s%NTagSets)/2] }
+
+// TagValue returns the value of a tag of a series and whether the series carries the tag.
+func TagValue(s int, key string) (string, bool) {
+	for _, kv := range SeriesKVs(s) {
+		if kv.K == key {
+			return kv.V, true
+		}
+	}
+	return "", false
+}
+
+// SeriesKey is the series key of the engine (measurement and tags, escaped).
+func SeriesKey(s int) []byte { return models.MakeKey([]byte(SeriesMeas(s)), SeriesTags(s)) }
+
+// PredicateKey is the key a delete predicate is matched against, built the way tsdb.PredicateSeriesIDIterator
+// builds it: the measurement is prepended as the reserved \x00 tag and the whole is escaped by models.MakeKey.
+func PredicateKey(s int) []byte {
+	name := []byte(SeriesMeas(s))
+	tags := append(models.Tags{{Key: models.MeasurementTagKeyBytes, Value: name}}, SeriesTags(s)...)
+	return models.MakeKey(name, tags)
+}
+
+// SeriesOf finds the series of the domain with this measurement and tags (-1: not of the domain).
+func SeriesOf(name []byte, tags models.Tags) int {
+	k := string(models.MakeKey(name, tags))
+	for s := 0; s < NSeries; s++ {
+		if string(SeriesKey(s)) == k {
+			return s
+		}
+	}
+	return -1
+}
 
 func SlotTS(j int) int64 { return int64(j-8) * 1000 }
 
@@ -89,7 +156,7 @@ func CursorRead(ctx context.Context, sh *tsdb.Shard, s, f int, min, max int64, a
 	if err != nil {
 		return nil, err
 	}
-	cur, err := ci.Next(ctx, &tsdb.CursorRequest{Name: []byte(MeasName(s / NTagSets)), Tags: SeriesTags(s), Field: FieldName(f), Ascending: asc, StartTime: min, EndTime: max})
+	cur, err := ci.Next(ctx, &tsdb.CursorRequest{Name: []byte(SeriesMeas(s)), Tags: SeriesTags(s), Field: FieldName(f), Ascending: asc, StartTime: min, EndTime: max})
 	if err != nil {
 		return nil, err
 	}
@@ -141,4 +208,110 @@ func CursorRead(ctx context.Context, sh *tsdb.Shard, s, f int, min, max int64, a
 		return nil, fmt.Errorf("unexpected cursor type %T", cur)
 	}
 	return out, cur.Err()
+}
+
+// ---- known finding C06-F1: the order KeyCursor gives the block locations of a key is not a strict weak order
+// (same logic as cycleTag/locsOf/misordered of the eng harness, h/eng/files_test.go)
+//
+// KeyCursor sorts the block locations of a key with a comparison (overlapping blocks by file path, disjoint ones by
+// time) that can be cyclic; sort.Sort may then put an older file's block BEHIND an overlapping block of a newer
+// file, and the merge lets the old value win.  A wrong read is attributed to that finding only if this is what
+// actually happens for the cursor in question: the locations are collected the way FileStore.locations collects
+// them for the seek time and direction, sorted with the same comparison by the same sort.Sort, and the result is
+// inspected.  A wrong read on a cursor whose locations come out in a consistent order is a different defect.
+
+// BlockLoc is one block of a key in one TSM file.
+type BlockLoc struct {
+	Path     string
+	Min, Max int64
+}
+
+// LocsOf collects the block locations of key for a cursor seeking to t in the given direction.
+func LocsOf(files []tsm1.TSMFile, key []byte, t int64, asc bool) []BlockLoc {
+	var out []BlockLoc
+	for _, tf := range files {
+		rd, ok := tf.(*tsm1.TSMReader)
+		if !ok {
+			continue
+		}
+		fmin, fmax := tf.TimeRange()
+		if asc && fmax < t || !asc && fmin > t {
+			continue
+		}
+		tombs := tf.TombstoneRange(key)
+		var ents []tsm1.IndexEntry
+		ents = rd.ReadEntries(key, &ents)
+	next:
+		for _, e := range ents {
+			for _, tr := range tombs {
+				if tr.Min <= e.MinTime && tr.Max >= e.MaxTime {
+					continue next
+				}
+			}
+			if asc && e.MaxTime < t || !asc && e.MinTime > t {
+				continue
+			}
+			out = append(out, BlockLoc{tf.Path(), e.MinTime, e.MaxTime})
+		}
+	}
+	return out
+}
+
+type locSort struct {
+	l   []BlockLoc
+	asc bool
+}
+
+func (s locSort) Len() int      { return len(s.l) }
+func (s locSort) Swap(i, j int) { s.l[i], s.l[j] = s.l[j], s.l[i] }
+func (s locSort) Less(i, j int) bool {
+	a, b := s.l[i], s.l[j]
+	if a.Min <= b.Max && a.Max >= b.Min {
+		return a.Path < b.Path
+	}
+	if s.asc {
+		return a.Min < b.Min
+	}
+	return a.Max < b.Max
+}
+
+// Misordered reports whether, after the cursor's own sort, some block of an older file stands behind an
+// overlapping block of a newer file.
+func Misordered(locs []BlockLoc, asc bool) bool {
+	l := append([]BlockLoc(nil), locs...)
+	sort.Sort(locSort{l, asc})
+	for i := range l {
+		for j := i + 1; j < len(l); j++ {
+			if l[i].Min <= l[j].Max && l[i].Max >= l[j].Min && l[i].Path > l[j].Path {
+				return true
+			}
+		}
+	}
+	return false
+}
+
+// CycleTag returns the signature suffix ":keycursor-order-cycle" if the cursor over files for key, seeking to t
+// (range min for ascending reads, range max for descending ones), gets its block locations misordered.
+func CycleTag(files []tsm1.TSMFile, key []byte, t int64, asc bool) string {
+	if Misordered(LocsOf(files, key, t, asc), asc) {
+		return ":keycursor-order-cycle"
+	}
+	return ""
+}
+
+// FieldKey is the composite key of one series field in TSM files and the cache.
+func FieldKey(s, f int) []byte {
+	return tsm1.SeriesFieldKeyBytes(string(SeriesKey(s)), FieldName(f))
+}
+
+// ShardFiles returns the TSM files of a shard's engine (nil if the engine is not a tsm1 engine).
+func ShardFiles(sh *tsdb.Shard) []tsm1.TSMFile {
+	e, err := sh.Engine()
+	if err != nil {
+		return nil
+	}
+	if te, ok := e.(*tsm1.Engine); ok && te.FileStore != nil {
+		return te.FileStore.Files()
+	}
+	return nil
 }
